@@ -53,3 +53,18 @@ Example C08_nonvacuous :
   r1 = Win [0;1;2;3] /\ r3 = Null ARCHIVE_FATAL /\ ffatal s3 = true /\
   fst (ahead s3 1) = Null ARCHIVE_FATAL.
 Proof. vm_compute. repeat split; reflexivity. Qed.
+
+(* ---- multi-volume input (IO/MultiNodeDefs.v) ---- *)
+From LA Require IO.MultiNodeDefs IO.MultiNodeProofs.
+Module MultiNode.
+Import MultiNodeDefs MultiNodeProofs.
+Local Open Scope Z_scope.
+(* a set of data nodes that ends early: skipping more than is left - through the buffered block, the
+   seek callback used as a skip callback (never beyond the end of a node) and the read loop over the
+   remaining nodes - is reported as ARCHIVE_FATAL, whatever the split into nodes.  False of the pinned
+   code, which let the seek land beyond the end of the node and reported the skip as complete. *)
+Theorem C08_multinode_short_stream_is_error : forall s n,
+  SInv s -> zlen (pending s) + zlen (rest s) < n -> fst (consume s n) = M_FATAL.
+Proof. intros s n HI H. destruct (consume_spec s n HI) as (_ & _ & _ & A). apply A. right. exact H. Qed.
+Print Assumptions C08_multinode_short_stream_is_error.
+End MultiNode.
